@@ -76,6 +76,7 @@ type S3 struct {
 	Defines  map[string]bool // template defines seen as markers
 	Debug    bool
 	cleanups []func()
+	shared   bool // owned by the process-level cache (checkall mode)
 }
 
 type S3Options struct {
@@ -89,6 +90,10 @@ func (s *S3) Close() {
 	if s != nil {
 		for _, f := range s.cleanups {
 			f()
+		}
+		s.cleanups = nil
+		if s.shared {
+			return
 		}
 	}
 	if s != nil && s.Scratch != "" && os.Getenv("VERIF_KEEP_SCRATCH") == "" {
@@ -123,7 +128,39 @@ type corpusMeta struct {
 }
 
 // BuildS3 copies, builds, instantiates and loads.
+// process-level sharing of instantiated corpora (checkall mode only)
+var (
+	shareS3   bool
+	sharedS3s = map[string]*S3{}
+)
+
+func closeSharedS3() {
+	for k, s := range sharedS3s {
+		s.shared = false
+		s.Close()
+		delete(sharedS3s, k)
+	}
+}
+
 func BuildS3(opt S3Options) (*S3, error) {
+	if shareS3 && opt.Filter == nil && opt.ExtraCorpus == "" {
+		key := fmt.Sprint(opt.TemplateDebug)
+		if s := sharedS3s[key]; s != nil {
+			return s, nil
+		}
+		opt.SSA = true
+		s, err := buildS3(opt)
+		if err != nil {
+			return nil, err
+		}
+		s.shared = true
+		sharedS3s[key] = s
+		return s, nil
+	}
+	return buildS3(opt)
+}
+
+func buildS3(opt S3Options) (*S3, error) {
 	scratch, err := os.MkdirTemp("", "verif-s3-")
 	if err != nil {
 		return nil, err
